@@ -59,7 +59,7 @@ class C01(Campaign):
                 used_eps.add(ep)
                 full = f"{prog['name']}/{c}"
                 sc["beh"].setdefault(full, []).insert(
-                    0, {"ep": ep, "raise": rnd.choice(["SimLookup", "SimValue", "SimFault"])})
+                    0, {"ep": ep, "raise": rnd.choice(["SimLookup", "SimValue", "SimFault", "SimRuntime", "SimAttr"])})
         return sc
 
     @staticmethod
